@@ -65,4 +65,26 @@ func init() {
 		"\t\t\t\t\t\tSourcePort:      s.Client.Endpoint.Port,\n\t\t\t\t\t\tDestinationPort: s.Server.Endpoint.Port,", "in.SourcePort")
 	add("c19-flow-client-is-server", "C19.flow", sh, "clientV = f(d, s.Client, format.TCP_Stream_In{", "clientV = f(d, s.Server, format.TCP_Stream_In{", "wire:")
 	add("c19-flow-ipv4-group", "C19.flow", sh, "\t\t\t\t&ipv4PacketFormat,\n", "\t\t\t\t&tcpStreamFormat,\n", "ipv4_packet:group")
+	// second self-review
+	add("c19-endian-pcap-be-ns", "C19.endian", pc, "\t\tcase bigEndianNS:\n\t\t\tendian = decode.BigEndian", "\t\tcase bigEndianNS:\n\t\t\tendian = decode.LittleEndian", "endian:pcap:0xa1b23c4d")
+	add("c19-endian-pcap-magic-const", "C19.endian", pc, "littleEndianNS = 0x4d3cb2a1", "littleEndianNS = 0x4d3cb1a2", "endian:pcap:0x4d3cb2a1")
+	add("c19-endian-pcapng-swapped", "C19.endian", ng, "\t\tcase ngBigEndian:\n\t\t\tdc.endian = decode.BigEndian", "\t\tcase ngBigEndian:\n\t\t\tdc.endian = decode.LittleEndian", "endian:pcapng:0x1a2b3c4d")
+	add("c19-section-length-origin", "C19.section", ng,
+		"\t\t// assume and read first section header\n\t\td.FieldStruct(\"block\", func(d *decode.D) { decodeBlock(d, dc) })\n\t\t// section length does not include the section header block itself\n\t\tsectionStart := d.Pos()\n",
+		"\t\tsectionStart := d.Pos()\n\t\td.FieldStruct(\"block\", func(d *decode.D) { decodeBlock(d, dc) })\n", "pcapng:section-length-origin")
+	add("c19-section-length-inclusive", "C19.section", ng, "d.Pos()-sectionStart < dc.sectionLength*8", "d.Pos()-sectionStart <= dc.sectionLength*8", "pcapng:section-length:bound")
+	add("c19-section-length-unscaled", "C19.section", ng, "d.Pos()-sectionStart < dc.sectionLength*8", "d.Pos()-sectionStart < dc.sectionLength", "pcapng:section-length:bound")
+	add("c19-section-optcheck-on", "C19.section", pc, "flowsdecoder.New(flowsdecoder.DecoderOptions{CheckTCPOptions: false})", "flowsdecoder.New(flowsdecoder.DecoderOptions{CheckTCPOptions: true})", "no-option-check")
+	add("c19-feed-pos-before-origlen", "C19.feed", ng,
+		"\t\tcapturedLength := d.FieldU32(\"capture_packet_length\")\n\t\td.FieldU32(\"original_packet_length\")\n\n\t\tbs := d.ReadAllBits(d.BitBufRange(d.Pos(), int64(capturedLength)*8))\n",
+		"\t\tcapturedLength := d.FieldU32(\"capture_packet_length\")\n\t\tbs := d.ReadAllBits(d.BitBufRange(d.Pos(), int64(capturedLength)*8))\n\t\td.FieldU32(\"original_packet_length\")\n\n", "at-packet")
+	add("c19-feed-only-untruncated", "C19.feed", pc, "if fn, ok := linkToDecodeFn[linkType]; ok {", "if fn, ok := linkToDecodeFn[linkType]; ok && inclLen == origLen {", "every-record")
+	add("c19-feed-pcapng-packet-len", "C19.feed", ng, "\t\t\t\"packet\",\n\t\t\tint64(capturedLength)*8,", "\t\t\t\"packet\",\n\t\t\tint64(capturedLength)*8+32,", "at-packet")
+	add("c19-endpoint-port-guard", "C19.endpoint", fd, "if len(transport.Src().Raw()) == 2 {", "if len(transport.Src().Raw()) == 4 {", "Client.Port")
+	add("c19-endpoint-port-guard-flow", "C19.endpoint", fd, "if len(transport.Dst().Raw()) == 2 {", "if len(net.Dst().Raw()) == 2 {", "Server.Port")
+	add("c19-endpoint-optcheck-default", "C19.endpoint", fd, "if fd.Options.CheckTCPOptions {", "if !fd.Options.CheckTCPOptions {", "optcheck-gated")
+	add("c19-defrag-assemble-ipv4-only", "C19.defrag", fd, "\tif tcp != nil {\n\t\ttcp, _ := tcp.(*layers.TCP)", "\tif tcp != nil && ip4Layer != nil {\n\t\ttcp, _ := tcp.(*layers.TCP)", "assemble-always")
+	add("c19-defrag-assemble-payload-only", "C19.defrag", fd, "\t\ttcp, _ := tcp.(*layers.TCP)\n\t\tfd.tcpAssembler.Assemble(", "\t\ttcp, _ := tcp.(*layers.TCP)\n\t\tif len(tcp.Payload) == 0 {\n\t\t\treturn nil\n\t\t}\n\t\tfd.tcpAssembler.Assemble(", "assemble-always")
+	add("c19-endpoint-register-syn-only", "C19.endpoint", fd, "\tfd.TCPConnections = append(fd.TCPConnections, stream)\n", "\tif tcp.SYN {\n\t\tfd.TCPConnections = append(fd.TCPConnections, stream)\n\t}\n", "registered-always")
+	add("c19-flow-skip-empty", "C19.flow", sh, "\t\tfor _, s := range fd.TCPConnections {\n", "\t\tfor _, s := range fd.TCPConnections {\n\t\t\tif s.Client.Buffer.Len() == 0 && s.Server.Buffer.Len() == 0 {\n\t\t\t\tcontinue\n\t\t\t}\n", "every-connection")
 }
